@@ -45,6 +45,7 @@ def run(rep, tier):
         confine(rep, c, sfx)
         reset(rep, c, sfx)
         errctor(rep, c, sfx)
+        position(rep, c, sfx)
 
 
 def is_enabled_cond(cond):
@@ -350,3 +351,17 @@ def errctor(rep, c, sfx):
             if hirq.expr_text(a["args"][0]) != hirq.expr_text(b["args"][0]) or hirq.expr_text(a["args"][1]) != hirq.expr_text(b["args"][1]):
                 r.violation("state:select", where(n), "the two error constructions get different variant/position "
                             "arguments: the error depends on the flag")
+
+
+def position(rep, c, sfx):
+    """The position recorded by the bookkeeping and the one the help message is rendered at are offsets taken
+    unchanged from an existing position / max_position (shared with C03.BOUNDARY: unchecked constructors only
+    get offsets that are known UTF-8 boundaries)."""
+    from . import c03
+    before = len(rep.rules)
+    c03.boundary(rep, c, sfx)
+    for rr in rep.rules[before:]:
+        rr.name = "C15.POSITION" + sfx
+        rr.desc = ("offsets handed to the unchecked Position/Span constructors (including the help-message position "
+                   "in Error::parse_attempts_error) are taken unchanged from an existing position, span, token or "
+                   "max_position / attempt_pos - never computed")
